@@ -220,7 +220,10 @@ pub fn matches(ty: &Ty, t: &[PTok], pos: usize, lenient: bool) -> Option<usize> 
                 let len = crate::reftok::unescape(s).len();
                 (len <= *n || lenient).then_some(pos + 1)
             }
-            Some(PTok::Ident(_)) if lenient => Some(pos + 1),
+            Some(PTok::Ident(_)) if lenient => {
+                IDENT_AS_STR.with(|c| c.set(c.get() + 1));
+                Some(pos + 1)
+            }
             _ => None,
         },
         Ty::Array(inner, n) => {
@@ -294,6 +297,19 @@ fn match_tagged<'a>(items: &'a [Tagged], t: &[PTok], pos: usize, lenient: bool) 
         }
     }
     Some((p, &item.tag, item.repeat))
+}
+
+thread_local! {
+    /// how often the lenient matcher took an identifier where char[n] is expected (also in attempts it gave up)
+    static IDENT_AS_STR: std::cell::Cell<usize> = const { std::cell::Cell::new(0) };
+}
+
+/// the lenient reading of the payload never takes an identifier as a string: the payload means the same
+/// under the strict and under the lenient (greedy) reading
+pub fn unambiguous(top: &Ty, t: &[PTok]) -> bool {
+    IDENT_AS_STR.with(|c| c.set(0));
+    let _ = conforms(top, t, true);
+    IDENT_AS_STR.with(|c| c.get()) == 0
 }
 
 /// does the whole payload conform to the definition?
@@ -498,6 +514,61 @@ pub fn members(d: usize, full_leaves: bool) -> Vec<Ty> {
     out
 }
 
+/// like `members`, but over a given leaf set at every depth (used for deeper nesting with few leaves)
+pub fn members_over(d: usize, leaf_set: &[Ty]) -> Vec<Ty> {
+    if d == 0 {
+        return leaf_set.to_vec();
+    }
+    let inner = members_over(d - 1, leaf_set);
+    let mut out = leaf_set.to_vec();
+    let (ta, tb) = (format!("A{d}"), format!("B{d}"));
+    let first = leaf_set[0].clone();
+    for m in &inner {
+        out.push(Ty::Struct(vec![m.clone()]));
+        out.push(Ty::Struct(vec![first.clone(), m.clone()]));
+        out.push(Ty::Struct(vec![m.clone(), first.clone()]));
+        for f in tagged_forms(&ta, m) {
+            let second_a = Tagged { tag: tb.clone(), item: None, block: false, repeat: false };
+            let second_b = Tagged { tag: tb.clone(), item: Some(Ty::Scalar(Sc::UInt)), block: true, repeat: true };
+            out.push(Ty::TaggedStruct(vec![f.clone()]));
+            out.push(Ty::TaggedStruct(vec![f.clone(), second_a.clone()]));
+            out.push(Ty::TaggedStruct(vec![second_b.clone(), f.clone()]));
+            if !f.repeat {
+                out.push(Ty::TaggedUnion(vec![f.clone()]));
+                out.push(Ty::TaggedUnion(vec![f.clone(), second_a]));
+            }
+        }
+    }
+    out
+}
+
+/// definitions outside the regular enumeration: arrays of arrays / enums / structs / strings, sequences of
+/// arrays and of structs, each as struct member, as tagged item, as repeated block and as top-level sequence
+pub fn extra_definitions() -> Vec<Ty> {
+    let u = Ty::Scalar(Sc::UInt);
+    let e = Ty::Enum(vec![("E1".into(), None), ("E2".into(), Some(5))]);
+    let elems = vec![
+        Ty::Array(Box::new(Ty::Array(Box::new(Ty::Scalar(Sc::UInt)), 3)), 2),
+        Ty::Array(Box::new(Ty::Array(Box::new(Ty::Array(Box::new(Ty::Scalar(Sc::Char)), 2)), 2)), 2),
+        Ty::Array(Box::new(e.clone()), 2),
+        Ty::Array(Box::new(Ty::Struct(vec![u.clone(), Ty::Scalar(Sc::Float)])), 2),
+        Ty::Array(Box::new(Ty::Scalar(Sc::Double)), 3),
+        Ty::Array(Box::new(Ty::Scalar(Sc::Int64)), 2),
+        Ty::Struct(vec![u.clone(), Ty::Array(Box::new(Ty::Scalar(Sc::Long)), 2)]),
+    ];
+    let mut out = Vec::new();
+    for x in elems {
+        out.push(Ty::Struct(vec![x.clone()]));
+        out.push(Ty::Struct(vec![u.clone(), x.clone(), u.clone()]));
+        out.push(Ty::TaggedStruct(vec![Tagged { tag: "A1".into(), item: Some(x.clone()), block: false, repeat: false }]));
+        out.push(Ty::TaggedStruct(vec![Tagged { tag: "A1".into(), item: Some(x.clone()), block: true, repeat: true }]));
+        out.push(Ty::TaggedStruct(vec![Tagged { tag: "A1".into(), item: Some(Ty::Seq(Box::new(x.clone()))), block: true, repeat: false }]));
+        out.push(Ty::TaggedUnion(vec![Tagged { tag: "A1".into(), item: Some(Ty::Seq(Box::new(x.clone()))), block: false, repeat: false }]));
+        out.push(Ty::Seq(Box::new(x.clone())));
+    }
+    out
+}
+
 /// top-level definitions: `block "IF_DATA" member` and `block "IF_DATA" (member)*`
 pub fn definitions(d: usize, full_leaves: bool) -> Vec<Ty> {
     let mut out = members(d, full_leaves);
@@ -520,7 +591,7 @@ fn kind_of(t: &Ty) -> usize {
     }
 }
 
-fn find_first<'a>(t: &'a Ty, kind: usize, top: bool) -> Option<&'a Ty> {
+pub fn find_first<'a>(t: &'a Ty, kind: usize, top: bool) -> Option<&'a Ty> {
     if !top && kind_of(t) == kind {
         return Some(t);
     }
